@@ -131,6 +131,68 @@ def run(ctx):
                         u.replay(), signature="C06:unbalanced-accepted")
     if cuts:
         ctx.sample({"main": cuts[0].lines, "files": cuts[0].files, "outcome": cuts[0].out[:2]})
+    _through_symlinks(ctx)
     return core.finish(ctx, obligations, discharged, names, RULE,
                        "lake build ZCV.Props.C06 && lake env lean ZCV/Audit/C06.lean",
                        ["resolve table computed with urllib.parse only", "file system and urlopen are outside the model"])
+
+
+def _through_symlinks(ctx):
+    """"Relative references are resolved against the URL of the including resource": the URL of a resource named through a
+    symbolic link (the file itself or a directory on the way) is the NAME it was given by, not the link's target; the text with
+    the %include and the inlined text must agree for every way of naming the top resource"""
+    import io
+    import os
+    import shutil
+    import tempfile
+    import urllib.request
+    import ZConfig
+    schema = ZConfig.loadSchemaFile(io.StringIO("<schema><multikey name='k'/></schema>"))
+    root = tempfile.mkdtemp(prefix="zcv-c06l-", dir="/dev/shm" if os.path.isdir("/dev/shm") else None)
+    try:
+        def w(rel, t):
+            p = os.path.join(root, rel)
+            os.makedirs(os.path.dirname(p), exist_ok=True)
+            with open(p, "w") as f:
+                f.write(t)
+        # a linked FILE: enabled/site.conf -> ../available/site.conf ; the fragment sits next to the link
+        w("available/site.conf", "k from-site\n%include local.conf\nk after\n")
+        w("available/local.conf", "k DECOY-next-to-the-target\n")
+        w("enabled/local.conf", "k local-next-to-the-link\n")
+        os.symlink(os.path.join("..", "available", "site.conf"), os.path.join(root, "enabled", "site.conf"))
+        # a linked DIRECTORY on the way: cur -> rel/v2 ; '../shared.conf' is relative to the name used
+        w("rel/v2/app.conf", "k from-app\n<!-- -->\n".replace("<!-- -->\n", "") + "%include ../shared.conf\n")
+        w("shared.conf", "k shared-next-to-the-link\n")
+        w("rel/shared.conf", "k DECOY-next-to-the-target-directory\n")
+        os.symlink(os.path.join("rel", "v2"), os.path.join(root, "cur"))
+        plans = [("enabled/site.conf", ["from-site", "local-next-to-the-link", "after"]), ("cur/app.conf", ["from-app", "shared-next-to-the-link"])]
+        cwd0 = os.getcwd()
+        for rel, inline in plans:
+            path = os.path.join(root, rel)
+            for way in ("abs", "rel", "url", "fileobj"):
+                try:
+                    os.chdir(root)
+                    if way == "abs":
+                        cfg, _ = ZConfig.loadConfig(schema, path)
+                    elif way == "rel":
+                        cfg, _ = ZConfig.loadConfig(schema, rel)
+                    elif way == "url":
+                        cfg, _ = ZConfig.loadConfig(schema, "file://" + urllib.request.pathname2url(path))
+                    else:
+                        with open(path) as f:
+                            cfg, _ = ZConfig.loadConfigFile(schema, f)
+                    got = ["ok", list(cfg.k)]
+                except ZConfig.ConfigurationError as e:
+                    got = ["rejected", str(e)[:120]]
+                except Exception as e:
+                    got = ["exc", type(e).__name__]
+                finally:
+                    os.chdir(cwd0)
+                ctx.evaluations += 1
+                ctx.nontriv(("symlink", rel, way))
+                if got != ["ok", inline]:
+                    ctx.violate("a resource named through a symbolic link (%s, by %s): the text with the %%include gives %r, the inlined text %r"
+                                % (rel, way, got, inline), {"layout": "enabled/site.conf -> ../available/site.conf ; cur -> rel/v2", "resource": rel,
+                                                            "way": way, "with_include": got, "inline": inline}, signature="C06:symlink:%s" % got[0])
+    finally:
+        shutil.rmtree(root, ignore_errors=True)
